@@ -6,7 +6,7 @@ from checks import histcommon, c07
 ASSUME = ['configurations are rendered by the harness from the generated example configuration (values flipped, ill-typed, scalar / array where a table is expected, '
           'unknown keys, unrelated sections); what each configuration says to each configurable lint is therefore known by construction',
           'a section holding exactly the default values is expected to behave like an absent one']
-WANTED = {'unapplicable-section-not-a-configuration-error', 'status-differs', 'details-differ', 'panic-escaped', 'flags',
+WANTED = {'unapplicable-section-not-a-configuration-error', 'status-differs', 'details-differ', 'panic-escaped', 'recovered-panic-under-an-applicable-section', 'flags',
           'example-configuration-not-toml', 'example-configuration-lacks-section', 'result-for-unselected-lint', 'no-result-for-selected-lint'}
 
 
